@@ -66,6 +66,8 @@ def do_noop_ops(sc):
             if sc.in_progress():
                 sc.g("rebase", "--abort")
             sc.g("checkout", "-q", base)
+    if kind == "commit-nothing" and sc.log and sc.log[-1][-1] == "rc=0":
+        return None   # something was staged after all (e.g. after reset --soft): a real commit, not a no-op
     sc.ops.append("noop:" + kind)
     after = (sc.notes_digest(), sc.pending_digest())
     sc.stats["noop_ops_compared"] += 1
